@@ -243,6 +243,24 @@ def run_axis(spec):
             out("FilterAnalyzer.fir", "(OFir %d)" % passes, lambda: F.fir)
             if not (lb == 0 and ub is None):
                 out("FilterAnalyzer.iir", "OFilt", lambda: F.iir)
+        # the public keyword in_ts of filtfilt replaces the input: the result must carry the axis of the series
+        # that was FILTERED (T), not of the analyzer's own series (other unit, t0, rate, length, 1-d vs 2-d)
+        if n > 20 and nd <= 2:
+            rsf = np.random.RandomState(spec["seed"] + 3)
+            other = ts.TimeSeries(rsf.randn(*((2, n + 17) if nd == 1 else (n + 17,))), sampling_interval=3.7, t0=11.0,
+                                  time_unit={"s": "ms", "ms": "us", "us": "s"}[spec["u"]])
+            bco, aco = sig.firwin(5, 0.4), [1.0]
+            F0 = nta.FilterAnalyzer(other, lb=0, ub=None)
+            ff = out("FilterAnalyzer.filtfilt(in_ts=)", "OFilt", lambda: F0.filtfilt(bco, aco, in_ts=T))
+            fo_ = out("FilterAnalyzer.filtfilt()", "OFilt", lambda: F.filtfilt(bco, aco))
+
+            def ff_ref():
+                r_ = sig.filtfilt(bco, aco, data)
+                return r_ - r_.mean(-1)[..., None] + data.mean(-1)[..., None]      # zero phase filter, DC of the filtered series kept
+            if ff is not None:
+                diff("FilterAnalyzer.filtfilt(in_ts=)", lambda: (ff.data, ff_ref()))
+            if fo_ is not None:
+                diff("FilterAnalyzer.filtfilt()", lambda: (fo_.data, ff_ref()))
         out("FilterAnalyzer.filtered_fourier", "OFilt", lambda: nta.FilterAnalyzer(T, lb=lb, ub=ub).filtered_fourier)
         if nd <= 2:     # algorithms.boxcar_filter takes 1-d / 2-d arrays only
             out("FilterAnalyzer.filtered_boxcar", "OFilt", lambda: nta.FilterAnalyzer(T, lb=lb, ub=ub).filtered_boxcar)
@@ -1091,6 +1109,8 @@ def gen_handover():
             outputs.append((cls.__name__ + "." + nm, "ODerived", lambda cls=cls, T=T, kw=kw, nm=nm: getattr(cls(T, **kw), nm)))
     for nm in ("iir", "filtered_fourier", "filtered_boxcar"):
         outputs.append(("FilterAnalyzer." + nm, "OFilt", lambda nm=nm: getattr(nta.FilterAnalyzer(T2, ub=fsv / 4, filt_order=8), nm)))
+    outputs.append(("FilterAnalyzer.filtfilt(in_ts=)", "OFilt", lambda: nta.FilterAnalyzer(T1).filtfilt([0.25, 0.5, 0.25], [1.0], in_ts=T2)))
+    outputs.append(("FilterAnalyzer.filtfilt()", "OFilt", lambda: nta.FilterAnalyzer(T2).filtfilt([0.25, 0.5, 0.25], [1.0])))
     outputs.append(("FilterAnalyzer.fir", "(OFir 2)", lambda: nta.FilterAnalyzer(T2, lb=fsv / 20, ub=fsv / 4, filt_order=8).fir))
     outputs.append(("FilterAnalyzer.fir[no pass]", "(OFir 0)", lambda: nta.FilterAnalyzer(T2, filt_order=8).fir))
     for nm in ("xcorr", "xcorr_norm"):
